@@ -193,8 +193,18 @@ pub fn build(case: &Case, ctx: &mut CaseCtx) -> Built {
                     exec(&mut d, owner, Cw20ExecuteMsg::IncreaseAllowance { spender: spender.to_string(), amount: Uint128::new(granted), expires }),
                     "increase allowance",
                 );
-                // the same counterparties under a different prefix must not leak into this listing
-                if s % 6 == 1 {
+                // the same counterparties under a different prefix must not leak into this listing (cases that go
+                // through an upgrade hold many more of them: the old allowance table has owners with one, two and
+                // three spenders, more than a hundred entries in all)
+                let upgrading = !by_owner && case.variant % 5 == 2;
+                if upgrading && s % 3 == 0 {
+                    let other2 = d.api.addr_make("spender-c");
+                    must(
+                        exec(&mut d, &cands[s], Cw20ExecuteMsg::IncreaseAllowance { spender: other2.to_string(), amount: Uint128::new(6), expires: None }),
+                        "increase allowance (a spender that sorts before the pivot)",
+                    );
+                }
+                if s % 6 == 1 || (upgrading && s % 2 == 0) {
                     let (o2, s2) = if by_owner { (&other, &cands[s]) } else { (&cands[s], &other) };
                     must(
                         exec(&mut d, o2, Cw20ExecuteMsg::IncreaseAllowance { spender: s2.to_string(), amount: Uint128::new(5), expires: None }),
